@@ -2,6 +2,7 @@
 From Coq Require Import List Arith NArith Bool Lia.
 From NngV Require Import Proto.Common Proto.PushModel Proto.PullModel Proto.PushProofs
   Ledger.Ledger Ledger.LedgerProofs Ledger.LawTac Ledger.Views.
+From NngV Require Proto.PushGuard Proto.PushSubmit.
 Import ListNotations.
 
 Ltac fin := cbn; unfold no_rx, no_keys; wnorm; cbn; try lia.
@@ -149,4 +150,59 @@ Proof.
   intros s o s' outs HI Hok H. split.
   - destruct Hok as [Hok _]. exact (proj1 (push_step_law s o s' outs HI Hok H)).
   - split; [apply law_sum_eq, push_law_sum; assumption|apply clones_held_none; reflexivity].
+Qed.
+
+(* ---- push0_set_send_buf_len with the repair of finding push-resize-overtakes-blocked (PushModel.push_step_r
+        true): the blocked senders that fit move, in order, from s->aq into the resized buffer; each one's send
+        completes with success, i.e. the reference on its aio becomes the protocol's ---- *)
+Lemma push_done_sub F s o (l' : list (aioid * pmsg)) :
+  NoDup (map fst (ps_aq s)) -> (forall c a nb m, o <> PSend c a nb m) -> incl l' (ps_aq s) ->
+  s_take F view_push s o (map (fun x => Complete (fst x) E_OK None) l') = wsum (fun x => F (OProto, body (snd x))) l' /\
+  s_del F view_push s o (map (fun x => Complete (fst x) E_OK None) l') = wsum (fun x => F (OAio (fst x), body (snd x))) l'.
+Proof.
+  intros Hn Ho Hi. induction l' as [|[a m] l' IH]; [split; reflexivity|].
+  destruct IH as [I1 I2]; [intros x Hx; apply Hi; right; exact Hx|].
+  cbn [map fst s_take s_del].
+  assert (K : send_key view_push s o a = Some (body m)).
+  { rewrite send_key_other by exact Ho. cbn [view_push VPush.view v_att]. apply att_key_in; [exact Hn|apply Hi; left; reflexivity]. }
+  rewrite K. change (E_OK =? 0)%N with true. cbn iota. rewrite !wsum_cons. cbn [fst snd]. rewrite I1, I2. split; lia.
+Qed.
+Lemma o_tx_done {A} F (f : A -> aioid) l : o_tx F (map (fun x => Complete (f x) E_OK None) l) = 0.
+Proof. induction l; cbn; auto. Qed.
+Lemma o_rel_done {A} F (f : A -> aioid) l : o_rel F (map (fun x => Complete (f x) E_OK None) l) = 0.
+Proof. induction l; cbn; auto. Qed.
+Lemma wsum_first_skip {A} (G : A -> nat) n (l : list A) : wsum G l = wsum G (firstn n l) + wsum G (skipn n l).
+Proof. rewrite <- (firstn_skipn n l) at 1. apply wsum_app. Qed.
+
+Lemma incl_firstn_l {A} n (l : list A) : incl (firstn n l) l.
+Proof. revert n. induction l as [|y l IH]; intros [|r] x; cbn; try tauto. intros [E|Hx]; [now left|right; eapply IH; eauto]. Qed.
+
+Lemma push_r_law_sum fr s o s' outs :
+  PInv s -> push_ok s o -> push_step_r fr s o = (s', outs) -> law_sum view_push s o s' outs.
+Proof.
+  intros HI Hok H.
+  destruct o as [c a nb m|c a nb|a rv|p peer|p|p rv|p rv m|c op|c|c| |now];
+    try (cbn [push_step_r] in H; apply push_law_sum; assumption).
+  destruct op; try (cbn [push_step_r] in H; apply push_law_sum; assumption).
+  cbn [push_step_r] in H. destruct (fr && negb (8192 <? N.of_nat n)%N); [|apply push_law_sum; assumption].
+  pose proof HI as (I1 & I2 & I3 & I4 & I5 & I6). intros F. cbv zeta.
+  change (v_extra view_push s (PSetOpt c (OSendBuf n)) outs) with (@nil pmsg).
+  change (v_clones view_push s (PSetOpt c (OSendBuf n)) ++ v_dups view_push s (PSetOpt c (OSendBuf n))) with (@nil key).
+  cbn [map op_add op_del]. rewrite app_nil_r, wsum_nil.
+  unfold push_resize_admit in H. inversion H; subst; clear H. push_view. cbn [ps_wq ps_sending ps_aq].
+  set (room := n - length (firstn n (ps_wq s))).
+  destruct (push_done_sub F s (PSetOpt c (OSendBuf n)) (firstn room (ps_aq s)) I4 ltac:(intros; discriminate)) as [A B].
+  { apply incl_firstn_l. }
+  rewrite !s_take_app, !s_del_app, !s_take_Free, !s_del_Free, A, B.
+  rewrite !o_tx_app, !o_rel_app, o_tx_Free, o_rel_Free, o_tx_done, o_rel_done. cbn [s_take s_del o_tx o_rel].
+  pose proof (wsum_first_skip (fun m => F (OProto, body m)) n (ps_wq s)) as FS.
+  pose proof (wsum_first_skip (fun x => F (OAio (fst x), body (snd x))) room (ps_aq s)) as FA.
+  rewrite !wsum_app, wsum_map. lia.
+Qed.
+
+Theorem push_proto_law_r fr : proto_law view_push (push_step_r fr) PInv push_ok.
+Proof.
+  intros s o s' outs HI Hok H. split.
+  - destruct Hok as [Hok _]. exact (proj1 (PushSubmit.push_step_r_law fr s o s' outs HI Hok H)).
+  - split; [apply law_sum_eq, (push_r_law_sum fr); assumption|apply clones_held_none; reflexivity].
 Qed.
